@@ -17,12 +17,12 @@ import (
 // run calls the real iterator on a slice of exactly size elements pre-filled with a sentinel and returns
 // the count and the slice converted to int64 (sentinel converted too).
 type iter struct {
-	name string
-	rev  bool
-	wrap func(v int64) int64
-	adds []int64
-	run64   func(w bm.Bit64, size, pos int, add int64, n int) (int, []int64)
-	run1024 func(b bm.Bit1024, size, pos int, add int64, n int) (int, []int64)
+	name     string
+	rev      bool
+	wrap     func(v int64) int64
+	adds     []int64
+	run64    func(w bm.Bit64, size, pos int, add int64, n int) (int, []int64)
+	run1024  func(b bm.Bit1024, size, pos int, add int64, n int) (int, []int64)
 	sentinel int64
 }
 
